@@ -194,8 +194,14 @@ def handshake(rng, run):
 def art(rng, run):
     nc = rng.choice([1, 2])
     limit = rng.choice([1, 2, 3, 4, 7, 64, 4096, 8192])
+    big = rng.random() < 0.06
+    if big:
+        # a server whose binary limit was raised far above 64 KiB (as the album_art documentation recommends for speed) and a picture larger than that
+        limit = rng.choice([70000, 131072, 300000])
     sizes = [-1, 0, 1, max(1, limit - 1), limit, limit + 1, 3 * limit + 1, 2 * limit]
-    if limit >= 64:
+    if big:
+        sizes = [limit - 1, limit, limit + 1, 2 * limit + 5, 66000]
+    elif limit >= 64:
         sizes += [4095, 4096, 4097, 20000]
     else:
         sizes += [rng.randint(0, 40)]
@@ -212,7 +218,7 @@ def art(rng, run):
                        "mime": list(rng.choice([b"image/gif", b"image/png"])) if rng.random() < 0.6 else None,
                        "embedded_ack": rng.choice([0, 0, 0, 5, 50]), "file_ack": rng.choice([0, 0, 0, 50]), "vary": pic["vary"], "ackp": rng.random() < 0.5, "tfirst": rng.random() < 0.4}
     if rng.random() < 0.2:
-        cfg["max_read"] = rng.choice([1, 5, 100, 4096])
+        cfg["max_read"] = rng.choice([1, 5, 100, 4096]) if not big else rng.choice([4096, 65536, 1000])
     batches = []
     n = rng.randint(4, 14)
     art_at = rng.randint(0, 2)
@@ -338,7 +344,19 @@ def lazy(rng, run):
     return {"run": run, "cfg": cfg, "batches": batches}
 
 
-PROFILES = {"burst": burst, "lazy": lazy, "base": base, "faults": faults, "handshake": handshake, "art": art, "tlists": tlists, "long": long}
+def fatlist(rng, run):
+    """One command list whose lines add up to more than 2 MiB (MPD's default max_command_list_size is 2048 KiB, raised by many setups): it is
+    still ONE request and must go out as one block; some commands around it."""
+    cfg = {"callers": 1, "split_seed": rng.getrandbits(48) | 1}
+    n = rng.choice([36, 40])
+    fat = rng.choice([60000, 66000])
+    lst = {"op": "issue", "c": 0, "kind": "list", "cmds": [{"fail": False, "pad": 0, "fat": fat} for _ in range(n)]}
+    batches = [[{"op": "issue", "c": 0, "kind": "raw", "cmds": [{}]}], [{"op": "deliver"}], [{"op": "deliver"}], [lst], [{"op": "deliver"}], [{"op": "deliver"}], [{"op": "deliver"}],
+               [{"op": "issue", "c": 0, "kind": "raw", "cmds": [{"fat": 300000}]}], [{"op": "deliver"}], [{"op": "deliver"}], [{"op": "timeout"}]]
+    return {"run": run, "cfg": cfg, "batches": batches}
+
+
+PROFILES = {"fatlist": fatlist, "burst": burst, "lazy": lazy, "base": base, "faults": faults, "handshake": handshake, "art": art, "tlists": tlists, "long": long}
 
 
 def generate(profile, n, seed, start=0):
